@@ -228,3 +228,52 @@ Definition export (am : aobj) (s : state) : outcome (list (string * string)) :=
   end.
 Definition export_plain (s : state) : list (string * string) :=
   let cols := base_columns s in combine cols cols.
+
+(* ---------------------------------------------------------------- reindex() *)
+(* VectorContainer.reindex(span', fill) as AliasMixin objects run it: `rn` = the name resolution of self[...] (identity for a plain
+   object).  For every name of `index`, in order: dtype and old cells are read through self[name] on the ORIGINAL; a fresh array
+   of the fill cell is stored under '_' + name of the copy; the overlapping periods are then written through reindexed[name]. *)
+Definition positions (old_span new_span : list Z) : list (nat * nat) :=
+  List.concat (map (fun ip => match find_pos (snd ip) old_span with Some p => [(fst ip, p)] | None => [] end)
+              (combine (seq 0 (length new_span)) new_span)).
+
+Definition write_positions (src : list pyval) (ps : list (nat * nat)) (dst : list pyval) : list pyval :=
+  fold_left (fun d np => match nth_error src (snd np) with Some c => upd (fst np) c d | None => d end) ps dst.
+
+Definition reindex_name (rn : string -> string) (fill : string -> dtype -> pyval) (new_span : list Z) (s : state)
+           (acc : outcome (list (string * var))) (name : string) : outcome (list (string * var)) :=
+  match acc with
+  | Raise e => Raise e
+  | Ret vs =>
+      if negb (mem (rn name) (index s)) then Raise KeyError            (* self[name] *)
+      else match assoc (rn name) (vars s) with
+           | None => Raise KeyError
+           | Some src =>
+               let fresh := mkVar (vdtype src) [length new_span] (repeat (fill name (vdtype src)) (length new_span)) in
+               let vs1 := assoc_set name fresh vs in
+               match assoc (rn name) vs1 with                            (* reindexed[name] *)
+               | None => Raise KeyError
+               | Some tgt => Ret (assoc_set (rn name) (mkVar (vdtype tgt) (vshape tgt)
+                                               (write_positions (vdata src) (positions (span s) new_span) (vdata tgt))) vs1)
+               end
+           end
+  end.
+
+Definition reindex_with (rn : string -> string) (fill : string -> dtype -> pyval) (new_span : list Z) (s : state) : outcome state :=
+  match fold_left (reindex_name rn fill new_span s) (index s) (Ret (vars s)) with
+  | Raise e => Raise e
+  | Ret vs => Ret (mkState new_span (index s) vs (registry s) (adict s) (strict s) (kind s) (names s) (dflt s))
+  end.
+
+Definition reindex_plain := reindex_with (fun x => x).
+Definition alias_reindex (am : aobj) := reindex_with (resolve am).
+
+(* the cell np.full(len(span), None-or-default, dtype) puts into new periods *)
+Definition np_fill (k : ckind) (name : string) (d : dtype) : pyval :=
+  match k, d with
+  | CVC, _ => match d with DBool => PBool false | DInt => PInt 0 | DStr _ => PStr "" | DFloat => PFlt FNaN | DObj => PNone end
+  | _, _ => if String.eqb name "status" then (match d with DStr w => PStr (truncate w "-") | DBool => PBool true | _ => PStr "-" end)
+            else if String.eqb name "iterations" then (match d with DInt => PInt (-1) | DFloat => PFlt (FHalf (-2)) | DBool => PBool true | DStr w => PStr (truncate w "-1") | DObj => PInt (-1) end)
+            else match d with DBool => PBool false | DInt => PInt 0 | DStr _ => PStr "" | DFloat => PFlt FNaN | DObj => PNone end
+  end.
+
